@@ -157,11 +157,42 @@ func r012Scope(c *an.Ctx) {
 	}
 }
 
-// reviewedDivisions: divisors whose non-zero-ness follows from facts outside the function.
-var reviewedDivisions = map[string]string{
-	"expr.byEnum#r.Int() % count":       "hasEnumValidation (tested on entry) holds only when the enum has at least one value",
-	"expr.patgen#r.Int() % len(re.Sub)": "regexp/syntax guarantees an OpAlternate node has at least two sub-expressions",
-	"expr.patgen#r.Int() % len(chars)":  "a character class node of a simplified regexp has at least one rune range, so chars is non-empty",
+// reviewedDivisions: divisors whose non-zero-ness follows from facts outside the function. The key names the
+// function and the shape of the divisor (locals resolved to their single definition, operands named by their
+// type), so that renaming a local or inlining it does not change the key; guard, when set, is the predicate a
+// dominating test must call.
+var reviewedDivisions = map[string]struct{ guard, why string }{
+	"expr.byEnum#len(ValidationExpr.Values)": {"hasEnumValidation", "hasEnumValidation (tested on entry) holds only when the enum has at least one value"},
+	"expr.patgen#len(Regexp.Sub)":            {"", "regexp/syntax guarantees an OpAlternate node has at least two sub-expressions"},
+	"expr.patgen#len([]rune)":                {"", "a character class node of a simplified regexp has at least one rune range, so chars is non-empty"},
+}
+
+// divisorShape renders a divisor with locals resolved and operands named by their type.
+func divisorShape(info *types.Info, body ast.Node, e ast.Expr) string {
+	e = an.Unparen(an.ResolveLocal(info, body, e))
+	switch x := e.(type) {
+	case *ast.CallExpr:
+		if id, ok := x.Fun.(*ast.Ident); ok && id.Name == "len" && len(x.Args) == 1 {
+			return "len(" + divisorShape(info, body, x.Args[0]) + ")"
+		}
+		if tv, ok := info.Types[x]; ok {
+			return tv.Type.String()
+		}
+	case *ast.SelectorExpr:
+		if tv, ok := info.Types[x.X]; ok {
+			if n := an.NamedTypeName(tv.Type); n != "" {
+				if i := strings.LastIndex(n, "."); i >= 0 {
+					n = n[i+1:]
+				}
+				return n + "." + x.Sel.Name
+			}
+		}
+	case *ast.Ident:
+		if tv, ok := info.Types[x]; ok {
+			return tv.Type.String()
+		}
+	}
+	return types.ExprString(e)
 }
 
 func r015Modulo(c *an.Ctx) {
@@ -191,14 +222,25 @@ func r015Modulo(c *an.Ctx) {
 				g = an.NewCFG(info, f.Decl.Body)
 			}
 			construct := fmt.Sprintf("%s#%s", f.Name, types.ExprString(be))
-			loc, found := g.LocOf(be)
+			_, found := g.LocOf(be)
 			if !found {
 				c.Undecidedf(rule, construct, be.Pos(), "cannot locate the division")
 				return true
 			}
-			if why, ok := reviewedDivisions[construct]; ok {
-				c.Okf(rule, construct, "reviewed: %s", why)
-				return true
+			if rv, ok := reviewedDivisions[f.Name+"#"+divisorShape(info, f.Decl.Body, be.Y)]; ok {
+				guarded := rv.guard == ""
+				rfacts, _ := g.FactsFor(be)
+				for _, fct := range rfacts {
+					for _, call := range an.AllCallsIn(fct.Cond) {
+						if o := an.Callee(info, call); o != nil && o.Name() == rv.guard {
+							guarded = true
+						}
+					}
+				}
+				if guarded {
+					c.Okf(rule, construct, "reviewed: %s", rv.why)
+					return true
+				}
 			}
 			// the divisor: a variable defined as (int of) A - B, or A - B itself
 			div := an.Unparen(be.Y)
@@ -229,7 +271,8 @@ func r015Modulo(c *an.Ctx) {
 				a, b = sub.X, sub.Y
 			}
 			safe := false
-			for _, fct := range g.DominatingFacts(loc) {
+			dfacts, _ := g.FactsFor(be)
+			for _, fct := range dfacts {
 				cond, isBin := an.Unparen(fct.Cond).(*ast.BinaryExpr)
 				if !isBin {
 					continue
